@@ -35,6 +35,10 @@ class Divergence(Exception):
     pass
 
 
+class Hang(Exception):
+    pass
+
+
 # ---------------------------------------------------------------------------------------------------------------
 # Inventory of shared-state functions (mechanical: AST scan).
 # ---------------------------------------------------------------------------------------------------------------
@@ -55,7 +59,8 @@ def inventory():
                 continue
             path = os.path.join(root, fn)
             try:
-                tree = ast.parse(open(path, encoding='utf-8').read())
+                with open(path, encoding="utf-8") as fh:
+                    tree = ast.parse(fh.read())
             except SyntaxError:
                 continue
             shared = set()
@@ -221,6 +226,7 @@ class Scheduler:
         self.finished = threading.Semaphore(0)
         self.opcode_files = opcode_files
         self.trace_log = []
+        self.watchdog = 30
 
     # -- tracing ---------------------------------------------------------------------------------------------
     def _global_trace(self, frame, event, arg):
@@ -351,7 +357,17 @@ class Scheduler:
             if first is not None:
                 self.current = first
                 self.sema[first].release()
-            self.finished.acquire()
+            if not self.finished.acquire(timeout=self.watchdog):
+                # A harness thread is stuck outside the scheduler's control (a real lock we failed to replace, or a
+                # baton hand-over bug): report where every thread is instead of hanging the check.
+                import traceback
+                frames = sys._current_frames()
+                where = []
+                for ident, t in self.tid_of.items():
+                    fr = frames.get(ident)
+                    where.append(f'thread {t}: ' + (' <- '.join(f'{os.path.basename(f.filename)}:{f.lineno}:{f.name}' for f in reversed(traceback.extract_stack(fr)[-6:])) if fr else 'gone'))
+                self.fatal = Hang('execution did not finish within %ss; ' % self.watchdog + ' | '.join(where))
+                self._release_all()
             for th in threads:
                 th.join(timeout=5)
         finally:
